@@ -177,3 +177,126 @@ Proof.
   intros Hg Ha. induction evs as [|e evs IH]; intros k; [reflexivity|]. cbn [map valid_from].
   rewrite ev_ok_shift, ref_step_shift, IH by assumption. reflexivity.
 Qed.
+
+(* ================================================================ the bar ends passed by the clock *)
+Lemma ends_app n1 n2 : forall s B, ends (n1 + n2) s B = ends n1 s B ++ ends n2 (s + Z.of_nat n1 * B) B.
+Proof.
+  induction n1 as [|n1 IH]; intros s B; [cbn [Nat.add ends app]; f_equal; lia|].
+  cbn [Nat.add ends app]. f_equal. rewrite IH. do 2 f_equal. lia.
+Qed.
+
+Lemma ends_shift n a : forall s B, ends n (s + a) B = map (fun x => x + a) (ends n s B).
+Proof.
+  induction n as [|n IH]; intros s B; [reflexivity|]. cbn [ends map]. f_equal.
+  replace (s + a + B) with (s + B + a) by lia. apply IH.
+Qed.
+
+(* advancing in two steps passes the same bar ends as advancing in one *)
+Lemma adv_comp k k1 t t' :
+  0 < r_total k -> 0 <= r_tbar k -> r_time k <= t -> t <= t' ->
+  r_time k1 = t -> r_tbar k1 = adv_tbar k t -> r_total k1 = r_total k ->
+  adv_caps k t ++ adv_caps k1 t' = adv_caps k t' /\ adv_tbar k1 t' = adv_tbar k t'.
+Proof.
+  intros HB Htb Ht Ht' K1 K2 K3. unfold adv_caps, adv_n, adv_tbar in *. rewrite K1, K2, K3.
+  set (B := r_total k) in *. set (a := r_tbar k + (t - r_time k)).
+  assert (Ha : 0 <= a) by (unfold a; lia).
+  pose proof (Z.div_mod a B ltac:(lia)) as Hdm. pose proof (Z.mod_pos_bound a B HB) as Hmb.
+  assert (Hn1 : 0 <= a / B) by (apply Z.div_pos; lia).
+  assert (E : r_tbar k + (t' - r_time k) = (a mod B + (t' - t)) + (a / B) * B) by (unfold a in *; lia).
+  rewrite E, Z.div_add, Z.mod_add by lia.
+  assert (Hn2 : 0 <= (a mod B + (t' - t)) / B) by (apply Z.div_pos; lia).
+  split; [|reflexivity].
+  replace (Z.to_nat ((a mod B + (t' - t)) / B + a / B)) with (Z.to_nat (a / B) + Z.to_nat ((a mod B + (t' - t)) / B))%nat by lia.
+  rewrite ends_app. do 2 f_equal. rewrite Z2Nat.id by lia. unfold a in *. lia.
+Qed.
+
+(* the bar ends expected from clock k up to time T, given the time signatures (all on bar lines) still to come *)
+Fixpoint expected (c : cfg) (k : rclk) (l : list (Z * Z * Z)) (T : Z) : list Z :=
+  match l with
+  | [] => adv_caps k T
+  | (s, n, d) :: l' => adv_caps k s ++ expected c (mkrc s 0 (bar_cap c n d) false) l' T
+  end.
+
+Lemma expected_ext c k k' l T : r_time k = r_time k' -> r_tbar k = r_tbar k' -> r_total k = r_total k' ->
+  expected c k l T = expected c k' l T.
+Proof.
+  intros H1 H2 H3. destruct l as [|[[s n] d] l]; cbn [expected]; unfold adv_caps, adv_n; now rewrite H1, H2, H3.
+Qed.
+
+(* every time signature on a bar line of the grid in force, with a positive bar length *)
+Fixpoint ts_on (c : cfg) (t0 B : Z) (l : list (Z * Z * Z)) : bool :=
+  match l with
+  | [] => true
+  | (t, n, d) :: l' => ((t - t0) mod B =? 0) && (0 <? bar_cap c n d) && ts_on c t (bar_cap c n d) l'
+  end.
+
+Lemma ref_step_snd c k e : snd (ref_step c k e) = adv_caps k (ev_time e).
+Proof. unfold ref_step. fold (ev_time e). destruct (m_type (ev_msg e)); reflexivity. Qed.
+
+Lemma expected_adv c k k1 t l T :
+  0 < r_total k -> 0 <= r_tbar k -> r_time k <= t -> t <= T -> (forall x, In x l -> t <= fst (fst x)) ->
+  r_time k1 = t -> r_tbar k1 = adv_tbar k t -> r_total k1 = r_total k ->
+  adv_caps k t ++ expected c k1 l T = expected c k l T.
+Proof.
+  intros HB Htb Ht HT Hl K1 K2 K3. destruct l as [|[[s n] d] l]; cbn [expected].
+  - now apply adv_comp.
+  - rewrite app_assoc. f_equal. apply adv_comp; try assumption. apply (Hl (s, n, d)). now left.
+Qed.
+
+Lemma run_expected c evs : forall k t0 B T,
+  0 < B -> r_total k = B -> r_tbar k = (r_time k - t0) mod B ->
+  StronglySorted ele evs -> (forall e, In e evs -> r_time k <= ev_time e <= T) -> r_time k <= T ->
+  ts_on c t0 B (map ev_tsv (filter is_tsev evs)) = true ->
+  snd (ref_run c k evs) ++ adv_caps (fst (ref_run c k evs)) T = expected c k (map ev_tsv (filter is_tsev evs)) T.
+Proof.
+  induction evs as [|e evs IH]; intros k t0 B T HB Htot Htb Hs H HkT Hon; [reflexivity|].
+  cbn [ref_run]. destruct (ref_step c k e) as [k1 a] eqn:Es. destruct (ref_run c k1 evs) as [k2 b] eqn:Er.
+  cbn [fst snd]. pose proof (ref_step_fst c k e) as (K1 & K2 & K3 & _). pose proof (ref_step_snd c k e) as K5.
+  rewrite Es in K1, K2, K3, K5. cbn [fst snd] in K1, K2, K3, K5. subst a.
+  pose proof (H e (or_introl eq_refl)) as Ht. inversion Hs as [|? ? Hs' He]; subst.
+  assert (Hadv : adv_tbar k (ev_time e) = (ev_time e - t0) mod r_total k).
+  { unfold adv_tbar. rewrite Htb. rewrite Z.add_mod_idemp_l by lia. f_equal. lia. }
+  assert (Hnext : forall x, In x evs -> r_time k1 <= ev_time x <= T).
+  { intros x Hx. rewrite Forall_forall in He. specialize (He x Hx). rewrite K1. split; [exact He|]. apply H. now right. }
+  assert (Htb0 : 0 <= r_tbar k) by (rewrite Htb; apply Z.mod_pos_bound; lia).
+  specialize (IH k1). rewrite Er in IH. cbn [fst snd] in IH. rewrite <- app_assoc.
+  cbn [filter] in *. destruct (is_tsev e) eqn:Ets.
+  - cbn [map] in *. change (ev_tsv e) with (ev_time e, m_num (ev_msg e), m_den (ev_msg e)) in *.
+    cbn [ts_on expected] in *. apply andb_prop in Hon. destruct Hon as [Hon Hon3]. apply andb_prop in Hon.
+    destruct Hon as [Hon1 Hon2]. apply Z.eqb_eq in Hon1. apply Z.ltb_lt in Hon2.
+    cbn [andb] in K3. rewrite Hadv, Hon1 in K3, K2. change (0 <? 0) with false in K3. cbn [negb] in K3.
+    f_equal.
+    assert (IH1 : b ++ adv_caps k2 T =
+                  expected c k1 (map ev_tsv (filter is_tsev evs)) T).
+    { apply (IH (ev_time e) (bar_cap c (m_num (ev_msg e)) (m_den (ev_msg e))) T); try assumption.
+      - rewrite K2, K1, Z.sub_diag. reflexivity.
+      - rewrite K1. lia. }
+    rewrite IH1. apply expected_ext; cbn [r_time r_tbar r_total]; assumption.
+  - cbn [andb] in K3.
+    assert (IH1 : b ++ adv_caps k2 T = expected c k1 (map ev_tsv (filter is_tsev evs)) T).
+    { apply (IH t0 (r_total k) T); try assumption.
+      - now rewrite K2, K1.
+      - rewrite K1. lia. }
+    rewrite IH1. apply expected_adv; try assumption; try lia.
+    intros x Hx. apply in_map_iff in Hx. destruct Hx as (y & <- & Hy). apply filter_In in Hy. destruct Hy as [Hy _].
+    rewrite Forall_forall in He. specialize (He y Hy). exact He.
+Qed.
+
+(* shifting: the bar ends move along *)
+Lemma ref_step_shift_snd c a k e :
+  snd (ref_step c (kshift a k) (shift_ev a e)) = map (fun x => x + a) (snd (ref_step c k e)).
+Proof.
+  rewrite !ref_step_snd, ev_time_shift'. unfold adv_caps, adv_n, kshift. cbn [r_time r_tbar r_total].
+  replace (ev_time e + a - (r_time k + a)) with (ev_time e - r_time k) by lia.
+  replace (r_time k + a - r_tbar k + r_total k) with (r_time k - r_tbar k + r_total k + a) by lia. apply ends_shift.
+Qed.
+
+Lemma ref_run_shift_snd c a evs : forall k,
+  snd (ref_run c (kshift a k) (map (shift_ev a) evs)) = map (fun x => x + a) (snd (ref_run c k evs)).
+Proof.
+  induction evs as [|e evs IH]; intros k; [reflexivity|]. cbn [map ref_run].
+  pose proof (ref_step_shift c a k e) as Hs. pose proof (ref_step_shift_snd c a k e) as Hs2.
+  destruct (ref_step c (kshift a k) (shift_ev a e)) as [k1 x]. destruct (ref_step c k e) as [k1' x']. cbn [fst snd] in Hs, Hs2. subst k1 x.
+  specialize (IH k1'). destruct (ref_run c (kshift a k1') (map (shift_ev a) evs)) as [k2 y].
+  destruct (ref_run c k1' evs) as [k2' y']. cbn [fst snd] in *. now rewrite map_app, IH.
+Qed.
